@@ -1,5 +1,5 @@
 SPECIFICATION TraceSpec
-CONSTANTS Kinds = {"buf", "hmeta", "reply", "rawdata", "stream", "geninfo", "metabuf", "cxxref", "bare"}
+CONSTANTS Kinds = {"buf", "hmeta", "reply", "rawdata", "stream", "outlocal", "outremote", "iterfile", "geninfo", "metabuf", "cxxref", "bare"}
   NH = 4 NObj = 8 Max = 1000 MaxExtra = 3 AsFound = FALSE
 INVARIANTS TypeOK AliveIffReferenced CountExact NoDangling
 POSTCONDITION TraceAccepted
